@@ -86,3 +86,8 @@ Print Assumptions shutdown_order_src.
 Theorem schedule_internal_wake_every_push_src : forall n workers, stranded wake_policy_src n workers = 0%nat.
 Proof. exact src_wake_every_push. Qed.
 Print Assumptions schedule_internal_wake_every_push_src.
+
+(* the reclaim slot of the code as it is: usable after the thread's TLS destructors (a plain pointer) and reclaimed at thread exit *)
+Theorem schedule_internal_exit_drain_src : exit_shapes_ok reclaim_slot_kind_src = true /\ reclaim_at_thread_exit_src = true.
+Proof. exact src_exit_slot. Qed.
+Print Assumptions schedule_internal_exit_drain_src.
